@@ -10,6 +10,9 @@ pub mod c07;
 pub mod c08;
 pub mod c09;
 pub mod c12;
+pub mod c13;
+pub mod c14;
+pub mod c15;
 pub mod c18;
 pub mod c19;
 pub mod c20;
@@ -32,6 +35,9 @@ pub fn registry() -> Vec<Check> {
         Check { id: "C08", level: "exploration", run: c08::run, replay: c08::replay },
         Check { id: "C09", level: "exploration", run: c09::run, replay: c09::replay },
         Check { id: "C12", level: "exploration", run: c12::run, replay: c12::replay },
+        Check { id: "C13", level: "exploration", run: c13::run, replay: c13::replay },
+        Check { id: "C14", level: "exploration", run: c14::run, replay: c14::replay },
+        Check { id: "C15", level: "exploration", run: c15::run, replay: c15::replay },
         Check { id: "C18", level: "exploration", run: c18::run, replay: c18::replay },
         Check { id: "C19", level: "exploration", run: c19::run, replay: c19::replay },
         Check { id: "C20", level: "exploration", run: c20::run, replay: c20::replay },
